@@ -78,6 +78,16 @@ def run(ctx):
         keep = [x for x in lines if '"session"' in x]
         return keep, r
     ctx.generate = gen
+    # resource side of "Close": after a run of session cases in one process (collector off) no descriptor is left open
+    fdcases = [c for c in scenarios(ctx, False) if c["cfg"]["tag"] in ("C10-sessions", "C10-noop", "C10-alike-paths")][:60]
+    fpath = ctx.write_cases(fdcases, name="fdcases.ndjson")
+    ftrace, _ = ctx.drive("ops", fpath, trace_name="fdtrace.ndjson", env={"H5V_FDCHECK": "1"})
+    fv, _ = ctx.validate("H5LogicalTrace.tla", "H5Logical_trace.cfg", ftrace, parts=1)
+    leaks = [b for b in fv["bad"] if any(it.get("diag") == "file-descriptors-leaked" for it in b.get("items", []))]
+    if leaks:
+        H.report(ctx, leaks, lambda i: {"fdcheck": "session cases in one process"}, ftrace)
+        H.write_evidence(ctx, LEVEL, {"evaluations": len(fdcases), "distinct_nontrivial": len(fdcases), "rule": "descriptor check", "samples": []}, L.ASSUME, len(leaks))
+        return 1
     return run_logical(
         ctx, LEVEL, [("C10Model.tla", "C10_thorough.cfg" if thorough else "C10_quick.cfg")],
         extra_cases=scenarios(ctx, thorough),
